@@ -8,7 +8,7 @@ use proptest::prelude::*;
 use serde::{Deserialize, Serialize};
 
 use crate::engine::{show_bytes, CheckResult, Failure, Obs};
-use crate::source::{build_reader, errkind_strategy, feed_strategy, ErrKind, Feed, FAULT_MSG};
+use crate::source::{build_reader_consumed, errkind_strategy, feed_strategy, ErrKind, Feed, FAULT_MSG};
 
 #[derive(Serialize, Deserialize, Clone, Debug, PartialEq, Eq, Hash)]
 pub enum Op {
@@ -52,6 +52,10 @@ pub struct History {
     pub data: Vec<u8>,
     pub feed: Feed,
     pub ops: Vec<Op>,
+    /// With the BufReader constructor: bytes consumed from the BufReader before it is handed to
+    /// `from_buf_reader` (a partly consumed BufReader).
+    #[serde(default)]
+    pub consumed_before: usize,
 }
 
 #[derive(Default, Debug, Clone)]
@@ -90,8 +94,9 @@ struct Model {
 
 pub fn run_history(h: &History, which: Oracles, prop: &str) -> Result<RunStats, Failure> {
     let data = Rc::new(h.data.clone());
-    let (mut reader, log) = build_reader(data.clone(), &h.feed, None);
-    let s: &[u8] = &data;
+    let (mut reader, log, base) = build_reader_consumed(data.clone(), &h.feed, None, h.consumed_before);
+    // the reader's stream starts behind the bytes consumed from the BufReader beforehand
+    let s: &[u8] = &data[base..];
     let mut m = Model {
         pos: 0,
         mark: 0,
@@ -115,7 +120,7 @@ pub fn run_history(h: &History, which: Oracles, prop: &str) -> Result<RunStats, 
     macro_rules! observe {
         ($i:expr, $op:expr) => {{
             let l = log.borrow();
-            let d = l.delivered;
+            let d = l.delivered - base;
             let blen = reader.buf_len();
             let check_window = which.window || (which.safety && panicked_before);
             if check_window {
@@ -419,7 +424,7 @@ pub fn run_history(h: &History, which: Oracles, prop: &str) -> Result<RunStats, 
                 requested = Some(k + 1);
                 let l = log.borrow();
                 if which.window {
-                    let want = s.get(m.pos + k).copied().filter(|_| m.pos + k < l.delivered);
+                    let want = s.get(m.pos + k).copied().filter(|_| m.pos + k < l.delivered - base);
                     match (got, want) {
                         (Some(a), Some(b)) if a == b => {}
                         (None, _) if l.terminal_returned && reader.buf_len() <= k => {}
@@ -587,6 +592,10 @@ pub fn run_history(h: &History, which: Oracles, prop: &str) -> Result<RunStats, 
 }
 
 pub fn classify(h: &History, st: &RunStats, obs: &mut Obs) {
+    obs.class_if(
+        h.consumed_before > 0 && matches!(h.feed.ctor, crate::source::Ctor::BufReader(_)),
+        "partly-consumed-bufreader",
+    );
     obs.class(format!("ctor/{}", h.feed.ctor.class()));
     obs.class(format!("chunk/{}", h.feed.chunk_class()));
     obs.class(format!("sched/{}", h.feed.sched.class()));
@@ -655,7 +664,12 @@ pub fn history_strategy(max_data: usize, max_ops: usize, hostile: bool) -> impl 
                 let k = ((f as usize) * (data.len() + 1)) >> 16;
                 feed.sched.fail_at = Some((k, kind));
             }
-            History { data, feed, ops }
+            History {
+                data,
+                feed,
+                ops,
+                consumed_before: 0,
+            }
         })
 }
 
